@@ -195,8 +195,17 @@ def follow_setup(F, DI, b):
     return None
 
 
-@rule("R11.3", props=["C11", "C16", "C07"], floor=4, title="function/filter geometry: l = ceil(c * max shard)/2^s - 2 (at least 1); expansion factor c within the documented bounds", configs=("default", "mwhc"))
+@rule("R11.3", props=["C11"], floor=4, title="function/filter geometry: l = ceil(c * max shard)/2^s - 2 (at least 1); expansion factor c within the documented bounds", configs=("default", "mwhc"))
 def r11_3(ctx, rr):
+    geometry_rule(ctx, rr, with_c=True)
+
+
+@rule("R16.6", props=["C16", "C07", "C12"], floor=4, title="the number of first segments l is sized from the largest shard and clamped to at least 1 (third vertex inside the l + 2 segments)", configs=("default", "mwhc"))
+def r16_6(ctx, rr):
+    geometry_rule(ctx, rr, with_c=False)
+
+
+def geometry_rule(ctx, rr, with_c):
     for cfg in sorted(ctx.facts.keys()):
         F = ctx.F(cfg)
         DI = DeepInliner(F, keep_narrowing=False)
@@ -266,6 +275,8 @@ def r11_3(ctx, rr):
             else:
                 rr.violate("%s:geometry" % nm, "reason=anchor-missing: %s assigns neither l nor seg_size" % ref, b.span)
             # --- c bounds
+            if not with_c:
+                continue
             rr.instances += 1
             if c_t is None:
                 rr.violate("%s:c" % nm, "reason=anchor-missing: %s: set_up_graphs does not return (c, lge)" % ref, b.span)
